@@ -5,6 +5,7 @@ import (
 	"fmt"
 	"math"
 	"os"
+	"sync"
 
 	"verif/harness/hx"
 
@@ -91,6 +92,53 @@ func devFullUsable() bool {
 	return err != nil
 }
 
+// concurrentCases: the same large-mesh / large-file cases, but computed by goroutines released together, so that
+// calls of stl.WriteMesh / ReadMesh / Read / Write overlap.  Each result is an ordinary case (judged by Coq like the
+// sequential ones): package-level scratch state shared between calls shows up as a wrong fingerprint.
+func concurrentCases(run *hx.Run, r *hx.Rng) []hx.Case {
+	rounds := 1
+	if run.Tier == "thorough" {
+		rounds = 4
+	}
+	var out []hx.Case
+	for round := 0; round < rounds; round++ {
+		const workers = 8
+		res := make([]hx.Case, workers)
+		jobs := make([]func() hx.Case, workers)
+		for w := 0; w < workers; w++ {
+			n := 600 + r.Intn(600)
+			sd := uint64(r.Intn(60000))
+			if w%2 == 0 {
+				d := bigMeshDesc{N: n, NV: 3 * n, A: 1, Seed: sd, NDir: r.Range(-1, 5), Note: "concurrent with 7 other calls"}
+				if w%4 == 0 {
+					d.NV, d.A, d.B, d.C = 50+r.Intn(100), 1+r.Intn(9), r.Intn(5), r.Intn(50)
+				}
+				jobs[w] = func() hx.Case { return bigMeshCase(d) }
+			} else {
+				d := bigFileDesc{N: n, Seed: sd, ZN: w%4 == 1, Note: "concurrent with 7 other calls"}
+				jobs[w] = func() hx.Case { return bigFileCase(d) }
+			}
+		}
+		start := make(chan struct{})
+		var wg sync.WaitGroup
+		for w := 0; w < workers; w++ {
+			wg.Add(1)
+			go func(w int) {
+				defer wg.Done()
+				<-start
+				res[w] = jobs[w]()
+			}(w)
+		}
+		close(start)
+		wg.Wait()
+		for _, c := range res {
+			run.Count("concurrent")
+			out = append(out, c)
+		}
+	}
+	return out
+}
+
 // ioCases: the fixed part of the reader / writer grid.
 func ioCases(run *hx.Run, r *hx.Rng) []hx.Case {
 	var out []hx.Case
@@ -98,7 +146,7 @@ func ioCases(run *hx.Run, r *hx.Rng) []hx.Case {
 	seed := func() uint64 { return uint64(r.Intn(60000)) }
 
 	// readers: files below and above 4096 bytes (n = 81: 4134, n = 82: 4184), one and several bufio buffers
-	counts := []int{0, 2, 81, 83, 164}
+	counts := []int{0, 2, 83, 164}
 	if thorough {
 		counts = []int{0, 1, 2, 3, 80, 81, 82, 83, 100, 163, 164, 300, 1000}
 	}
@@ -124,11 +172,15 @@ func ioCases(run *hx.Run, r *hx.Rng) []hx.Case {
 	if thorough {
 		bigKinds = wholeReaders
 	}
-	for _, k := range bigKinds {
+	for i, k := range bigKinds {
 		run.Count("reader-big:" + k)
-		out = append(out, bigFileCase(bigFileDesc{N: 4097 + r.Intn(100), Seed: seed(), Note: "reader grid, beyond one chunk", readerSpec: readerSpec{Kind: k, RSeed: uint64(r.Intn(1 << 20))}}))
+		n := 4097 + r.Intn(100) // the model itself is executed up to 4200 records (Check/C07.v exec_limit) ...
+		if i > 0 {
+			n = 4201 + r.Intn(4000) // ... beyond, its answer comes from the theorems
+		}
+		out = append(out, bigFileCase(bigFileDesc{N: n, Seed: seed(), Note: "reader grid, beyond one chunk", readerSpec: readerSpec{Kind: k, RSeed: uint64(r.Intn(1 << 20))}}))
 	}
-	out = append(out, bigFileCase(bigFileDesc{N: 4097, Seed: seed(), Note: "reader grid, fails inside the second chunk",
+	out = append(out, bigFileCase(bigFileDesc{N: 4201 + r.Intn(100), Seed: seed(), Note: "reader grid, fails inside the second chunk",
 		readerSpec: readerSpec{Kind: "errafter", RSeed: uint64(r.Intn(1 << 20)), FailAt: 84 + 50*4096 + r.Intn(50)}}))
 
 	// writers that fail after cap bytes
@@ -154,6 +206,7 @@ func ioCases(run *hx.Run, r *hx.Rng) []hx.Case {
 			}
 		}
 	}
+	out = append(out, concurrentCases(run, r)...)
 	if devFullUsable() {
 		for _, n := range []int{0, 1, 81, 82, 4097} {
 			wf(writeFailDesc{Op: "save-devfull", N: n, Cap: 0, Seed: seed(), Normals: n%2 == 1})
